@@ -2,6 +2,7 @@ package gosym
 
 import (
 	"fmt"
+	"sync/atomic"
 	"os"
 	"runtime/debug"
 	"sort"
@@ -90,6 +91,8 @@ type State struct {
 	inited        map[*ssa.Function]bool
 	pcSeen        map[string]bool
 	speculating   bool
+	queryCount    int
+	cross         []CrossQuery
 	trackFootprint bool
 	footprint     map[string]bool
 	faultsOn      bool
@@ -261,6 +264,7 @@ func (st *State) Branch(c *Term) bool {
 	st.pos++
 	st.newDecs++
 	rT := st.sol.CheckWith(c)
+	st.sampleQuery(c, rT)
 	feasT := rT != "unsat"
 	feasF := true
 	if feasT {
@@ -417,3 +421,40 @@ func sortedKeys(m map[string]bool) []string {
 	sort.Strings(ks)
 	return ks
 }
+
+// CrossQuery is a self-contained copy of one feasibility query, for re-deciding with other solvers.
+type CrossQuery struct {
+	SMT      string
+	Expected string
+}
+
+// sampleQuery records every cfg.CrossEvery-th decided query as a standalone SMT-LIB script.
+func (st *State) sampleQuery(extra *Term, result string) {
+	if st.cfg.CrossEvery <= 0 || result == "unknown" {
+		return
+	}
+	if n := atomic.AddInt64(&crossCounter, 1); n%int64(st.cfg.CrossEvery) != 0 || len(st.cross) >= 4 {
+		return
+	}
+	var sb strings.Builder
+	syms := map[string]uint8{}
+	for _, p := range st.pc {
+		p.Syms(syms)
+	}
+	extra.Syms(syms)
+	var names []string
+	for n := range syms {
+		names = append(names, n)
+	}
+	sort.Strings(names)
+	for _, n := range names {
+		sb.WriteString("(declare-const |" + n + "| " + sortOf(syms[n]) + ")\n")
+	}
+	for _, p := range st.pc {
+		sb.WriteString("(assert " + p.SMT() + ")\n")
+	}
+	sb.WriteString("(assert " + extra.SMT() + ")\n(check-sat)\n")
+	st.cross = append(st.cross, CrossQuery{SMT: sb.String(), Expected: result})
+}
+
+var crossCounter int64
